@@ -13,7 +13,7 @@ import (
 
 var ruleAtomicWrite = &Rule{
 	ID:    "R-ATOMICWRITE",
-	Doc:   "`evy fmt -w` file discipline over the call graph rooted at (*fmtCmd).Run: only CreateTemp/Write/Chmod/Close/Rename/Stat/ReadFile touch files (W1); the temp file is created in the target's directory and renamed onto the target (W2); CreateTemp→Write→Chmod→Close→Rename happen in this order, each error tested, its failing edge never reaching Rename (W3); the temp file gets the target's permission bits from Stat (W4); the writer runs only after a successful format, with format's output, under the Write flag, and format gets the Check flag (W5); --check compares input with the formatter's own output and fails exactly on the unequal edge (W6); an error for one file ends the command with that error (W7); an error carried around a loop over the members of an archive is tested or used inside the loop before the next member replaces it (W8)",
+	Doc:   "`evy fmt -w` file discipline over the call graph rooted at (*fmtCmd).Run: only CreateTemp/Write/Chmod/Close/Rename/Stat/ReadFile touch files (W1); the temp file is created in the target's directory and renamed onto the target (W2); CreateTemp→Write→Chmod→Close→Rename happen in this order, each error tested, its failing edge never reaching Rename (W3); the temp file gets the target's permission bits from Stat (W4); the writer runs only after a successful format, with format's output, under the Write flag, and format gets the Check flag — or, where format only formats, each of its callers tests the Check flag first thing on the success edge and hands the formatted bytes and format's output to the one comparison helper (W5); --check compares input with the formatter's own output and fails exactly on the unequal edge (W6); an error for one file ends the command with that error (W7); an error carried around a loop over the members of an archive is tested or used inside the loop before the next member replaces it (W8)",
 	Floor: 15,
 	Run:   runAtomicWrite,
 }
@@ -446,7 +446,9 @@ callers:
 				}
 				k++
 				if len(call.Call.Args) < 2 {
-					r.Undecided("format takes no checkOnly argument: where the --check comparison happens is not modelled")
+					// format only formats; the comparison is made by the callers through a helper (checkFormatted(in, out))
+					why := callerCompares(call, fn, fns, cmpHelper(fns, format))
+					r.Check(why == "", fmt.Sprintf("%s#W5:check-flag[%d]", ssaQName(fn), k), p.Rel(instrPos(call)), "under --check the input is compared with format's output right after a successful format", why)
 					continue
 				}
 				arg := call.Call.Args[1]
@@ -490,6 +492,19 @@ callers:
 			case *ssa.BinOp:
 				if (x.Op == token.NEQ || x.Op == token.EQL) && isStringType(x.X.Type()) {
 					cmp = x
+				}
+			}
+		}
+	}
+	callerMode := len(format.Params) == 1
+	if callerMode {
+		cmp = nil
+		if h := cmpHelper(fns, format); h != nil {
+			for _, b := range h.Blocks {
+				for _, ins := range b.Instrs {
+					if x, ok := ins.(*ssa.BinOp); ok && (x.Op == token.NEQ || x.Op == token.EQL) && isStringType(x.X.Type()) {
+						cmp = x
+					}
 				}
 			}
 		}
@@ -562,6 +577,19 @@ callers:
 			return isParam && prm.Parent() == format
 		}
 		isOut := func(v ssa.Value) bool { return valueReaches(v, fmtMeth, 4) }
+		if callerMode {
+			// the helper compares its two parameters; what they are is decided at its call sites (W5:check-flag)
+			isPrm := func(v ssa.Value) bool {
+				if cv, ok := v.(*ssa.Convert); ok {
+					v = cv.X
+				}
+				prm, ok := v.(*ssa.Parameter)
+				return ok && prm.Parent() == cmp.Parent()
+			}
+			isIn = func(v ssa.Value) bool { return isPrm(v) }
+			isOut = isIn
+			in, out = cmp.X, cmp.Y
+		}
 		if (isIn(in) && isOut(out)) || (isIn(out) && isOut(in)) {
 			// errNotFormatted is returned exactly where the two are known to differ, under checkOnly — however the
 			// tests are written (`if checkOnly && in != out`, `case !(in == out):`, a helper that compares)
@@ -587,6 +615,9 @@ callers:
 				}
 				if !differ {
 					okCmp = false
+				}
+				if callerMode {
+					continue // the flag is tested at the call sites of the helper
 				}
 				at := ret.Block()
 				if hc := siteOf(cmp); hc != nil {
@@ -1035,4 +1066,160 @@ func lostLoopErrors(fn *ssa.Function) []ssa.Instruction {
 		}
 	}
 	return out
+}
+
+// cmpHelper: the function of the command, other than format, that compares two strings and returns errNotFormatted
+// (checkFormatted(in, out)); nil unless there is exactly one.
+func cmpHelper(fns []*ssa.Function, format *ssa.Function) *ssa.Function {
+	var found *ssa.Function
+	for _, fn := range fns {
+		if fn == format {
+			continue
+		}
+		hasCmp, hasNF := false, false
+		for _, b := range fn.Blocks {
+			for _, ins := range b.Instrs {
+				switch x := ins.(type) {
+				case *ssa.BinOp:
+					if (x.Op == token.NEQ || x.Op == token.EQL) && isStringType(x.X.Type()) {
+						hasCmp = true
+					}
+				case *ssa.Return:
+					if len(x.Results) > 0 {
+						if u, ok := x.Results[len(x.Results)-1].(*ssa.UnOp); ok {
+							if g, ok := u.X.(*ssa.Global); ok && g.Name() == "errNotFormatted" {
+								hasNF = true
+							}
+						}
+					}
+				}
+			}
+		}
+		if hasCmp && hasNF {
+			if found != nil {
+				return nil
+			}
+			found = fn
+		}
+	}
+	return found
+}
+
+// callerCompares: fcall is a call of the one-parameter format in fn. On the success edge of that call the Check flag is
+// tested before anything else is decided, and on its true edge the comparison helper is called with the bytes that were
+// formatted and format's output. Returns "" or what is missing.
+func callerCompares(fcall *ssa.Call, fn *ssa.Function, fns []*ssa.Function, helper *ssa.Function) string {
+	if helper == nil {
+		return "no single helper of the command compares the input with the formatted text and returns errNotFormatted: --check cannot tell the truth"
+	}
+	strip := func(v ssa.Value) ssa.Value {
+		for {
+			switch x := v.(type) {
+			case *ssa.Convert:
+				v = x.X
+			case *ssa.ChangeType:
+				v = x.X
+			default:
+				return v
+			}
+		}
+	}
+	isCheckFlag := func(v ssa.Value) bool {
+		if loadsField(v, "Check") {
+			return true
+		}
+		prm, ok := v.(*ssa.Parameter)
+		if !ok || !isBoolType(prm.Type()) {
+			return false
+		}
+		// passed down: every caller passes the Check field
+		n := 0
+		for _, fn2 := range fns {
+			for _, ci := range callsTo(fn2, prm.Parent()) {
+				for i, fp := range prm.Parent().Params {
+					if fp == prm {
+						n++
+						if i >= len(ci.Common().Args) || !loadsField(ci.Common().Args[i], "Check") {
+							return false
+						}
+					}
+				}
+			}
+		}
+		return n > 0
+	}
+	// follow unconditional jumps
+	straight := func(from, to *ssa.BasicBlock) bool {
+		for i := 0; i < 8 && from != nil; i++ {
+			if from == to {
+				return true
+			}
+			if len(from.Succs) != 1 {
+				return false
+			}
+			from = from.Succs[0]
+		}
+		return false
+	}
+	for _, ci := range callsTo(fn, helper) {
+		hc, ok := ci.(*ssa.Call)
+		if !ok || len(hc.Call.Args) != 2 {
+			continue
+		}
+		a0, a1 := strip(hc.Call.Args[0]), strip(hc.Call.Args[1])
+		src := strip(fcall.Call.Args[0])
+		isSrc := func(v ssa.Value) bool { return v == src || sameValueExpr(v, src, 6) }
+		isOut := func(v ssa.Value) bool { return valueReaches(v, fcall, 4) }
+		if !(isSrc(a0) && isOut(a1) || isSrc(a1) && isOut(a0)) {
+			continue
+		}
+		if !nilErrGuards(fcall, hc) {
+			continue
+		}
+		// the flag test that leads to the comparison
+		for d := hc.Block(); d != nil; d = d.Idom() {
+			id := d.Idom()
+			if id == nil || len(id.Instrs) == 0 {
+				continue
+			}
+			ifi, ok := id.Instrs[len(id.Instrs)-1].(*ssa.If)
+			if !ok || !isCheckFlag(ifi.Cond) {
+				continue
+			}
+			if !straight(id.Succs[0], hc.Block()) {
+				continue
+			}
+			// the flag is the first thing decided on the success edge of format
+			errVal := errResultOf(fcall)
+			for _, b := range fn.Blocks {
+				if len(b.Instrs) == 0 {
+					continue
+				}
+				ei, ok := b.Instrs[len(b.Instrs)-1].(*ssa.If)
+				if !ok {
+					continue
+				}
+				bo, ok := ei.Cond.(*ssa.BinOp)
+				if !ok || bo.X != errVal {
+					continue
+				}
+				if k, isK := bo.Y.(*ssa.Const); !isK || !k.IsNil() {
+					continue
+				}
+				okEdge := 1
+				if bo.Op == token.EQL {
+					okEdge = 0
+				}
+				if straight(b.Succs[okEdge], id) {
+					return ""
+				}
+			}
+		}
+	}
+	return "after this call of format the Check flag does not lead, as the first thing decided on the success edge, to a comparison of the formatted bytes with format's output: `evy fmt --check` would exit 0 for input that is not formatted"
+}
+
+func isBoolType(t types.Type) bool {
+	b, ok := t.Underlying().(*types.Basic)
+	return ok && b.Info()&types.IsBoolean != 0
 }
